@@ -378,18 +378,20 @@ example : (KVs.cons (.int 0) (.dict .nil) (.cons (.int 1) (.dict .nil) .nil)).di
 
 /-! ## the iteration counter -/
 
-/-- **resume_same_run**: if the checkpoint written during iteration `k` stores the counter of the
-NEXT iteration, then for every deterministic step function, every number of iterations, every
-interruption point `k ≤ iterations` and every initial state: the states visited up to the
-checkpoint followed by the states visited by the run restarted from it (with the state restored
-to what it was: `hs`) are exactly the (iteration, state) sequence of the uninterrupted run. -/
-theorem resume_same_run {S : Type} (step : Nat → S → S) (l : LoopSpec) (hl : l.incBeforeSave = true)
+/-- **resume_same_run**: if the loop stores the NEXT iteration (counter round-trips through the file, is advanced before
+the checkpoint statement, and every state-changing statement precedes it), then for every deterministic step
+function, every number of iterations, every interruption point `k ≤ iterations` and every initial state: the
+states visited up to the checkpoint followed by the states visited by the run restarted from it (with the state
+restored to what it was: `hs`) are exactly the (iteration, state) sequence of the uninterrupted run. -/
+theorem resume_same_run {S : Type} (step : Nat → S → S) (l : LoopSpec) (hl : l.storesNext = true)
     (iterations k : Nat) (hk : k ≤ iterations) (s0 restored : S)
     (hs : restored = stateAfter step 1 k s0) :
     fullRun step iterations s0 =
       runFrom step 1 k s0 ++ resumedRun step iterations (savedCounter l k) restored := by
+  unfold LoopSpec.storesNext at hl
+  simp only [Bool.and_eq_true] at hl
   unfold fullRun resumedRun savedCounter
-  rw [hl, hs]
+  rw [hl.1.1, hl.1.2, hs]
   have h1 : iterations = k + (iterations - k) := by omega
   have h2 : iterations + 1 - (k + 1) = iterations - k := by omega
   simp only [↓reduceIte]
@@ -397,42 +399,68 @@ theorem resume_same_run {S : Type} (step : Nat → S → S) (l : LoopSpec) (hl :
   conv => lhs; rw [h1]
   exact runFrom_append step k (iterations - k) 1 s0
 
-/-- … and only then: a checkpoint that stores the counter of the iteration just completed makes
-the restarted run one pass longer (it repeats iteration `k`), whatever the step function. -/
+/-- … and only then, as far as the counter goes: a loop whose counter does not come back (restart from 1) or is
+stored before being advanced makes the restarted run longer than the remainder of the uninterrupted one,
+whatever the step function (`1 ≤ k`: at least one iteration was completed). -/
 theorem resume_same_run_iff {S : Type} (step : Nat → S → S) (l : LoopSpec)
-    (iterations k : Nat) (hk : k ≤ iterations) (s0 : S) :
+    (iterations k : Nat) (hk1 : 1 ≤ k) (hk : k ≤ iterations) (s0 : S) :
     fullRun step iterations s0 =
       runFrom step 1 k s0 ++ resumedRun step iterations (savedCounter l k) (stateAfter step 1 k s0)
-    ↔ l.incBeforeSave = true := by
+    ↔ (l.counterRoundTrips = true ∧ l.incBeforeSave = true) := by
   constructor
   · intro h
-    cases hb : l.incBeforeSave with
-    | true => rfl
-    | false =>
-        exfalso
-        have hlen := congrArg List.length h
-        simp only [fullRun, resumedRun, savedCounter, hb, List.length_append, length_runFrom] at hlen
-        simp at hlen
-        omega
+    have hlen := congrArg List.length h
+    simp only [fullRun, resumedRun, savedCounter, List.length_append, length_runFrom] at hlen
+    cases h1 : l.counterRoundTrips <;> cases h2 : l.incBeforeSave <;> simp [h1, h2] at hlen ⊢ <;> omega
   · intro hl
-    exact resume_same_run step l hl iterations k hk s0 _ rfl
+    unfold fullRun resumedRun savedCounter
+    rw [hl.1, hl.2]
+    have h1 : iterations = k + (iterations - k) := by omega
+    have h2 : iterations + 1 - (k + 1) = iterations - k := by omega
+    simp only [↓reduceIte]
+    rw [h2, Nat.add_comm k 1]
+    conv => lhs; rw [h1]
+    exact runFrom_append step k (iterations - k) 1 s0
 
-/-- every checkpointing loop found in the source advances the counter before it writes -/
-theorem loops_store_next_iteration : ∀ l ∈ loops, l.incBeforeSave = true := by decide
+/-- every loop row the translator read from the source is present (each loop is its own row) -/
+theorem loops_listed : loops.map (·.name) = ["HMC.run", "MCMC.run", "Optimizer._run", "Optimizer._run_closure"] := by
+  decide
 
-/-- **all_loops_resume**: `Optimizer._run`, `Optimizer._run_closure`, `MCMC.run` (whatever the
-translator found) continue the same run after a restart -/
-theorem all_loops_resume {S : Type} (l : LoopSpec) (hmem : l ∈ loops) (step : Nat → S → S)
+/-
+FULL STATEMENT (false for the row `HMC.run`, known finding `resume-differs:HMC.run:labels`):
+  theorem loops_store_next_iteration : ∀ l ∈ loops, l.storesNext = true
+`HMC.run` iterates `for epoch in range(1, iterations + 1)` over a local, writes `save_parameters(checkpoint,
+parameters)` (parameters only, no counter, no integrator step size, no mass matrix) before the warm-up adaptor
+learns, and `HMC` has no `state_dict`/`load_state_dict`/`id`: `main` restores the parameter tensors and nothing else.
+-/
+/-- **loops_store_next_iteration_partial**: every checkpointing loop found in the source, `HMC.run` excepted, stores
+the next iteration: its counter is an attribute written by `state_dict` and read back by `load_state_dict`, the
+checkpoint carries that state, the counter is advanced before the checkpoint statement and the step, accept/reject,
+tune and scheduler statements all precede it.  Decided row by row on the generated table. -/
+theorem loops_store_next_iteration_partial : ∀ l ∈ loops, l.name ≠ "HMC.run" → l.storesNext = true := by decide
+
+/-- what `HMC.run` does instead (decided on its row): nothing but the parameters comes back, so a restarted run
+begins at iteration 1 again whatever the checkpoint it was started from -/
+theorem hmc_run_restarts_at_one : ∀ l ∈ loops, l.name = "HMC.run" →
+    l.counterRoundTrips = false ∧ ∀ k, savedCounter l k = 1 := by
+  intro l hl hn
+  have : l.counterRoundTrips = false := by
+    revert l; decide
+  exact ⟨this, fun k => by simp [savedCounter, this]⟩
+
+/-- **all_loops_resume**: `Optimizer._run`, `Optimizer._run_closure`, `MCMC.run` (every row but `HMC.run`) continue
+the same run after a restart -/
+theorem all_loops_resume {S : Type} (l : LoopSpec) (hmem : l ∈ loops) (hn : l.name ≠ "HMC.run") (step : Nat → S → S)
     (iterations k : Nat) (hk : k ≤ iterations) (s0 : S) :
     fullRun step iterations s0 =
       runFrom step 1 k s0 ++ resumedRun step iterations (savedCounter l k) (stateAfter step 1 k s0) :=
-  resume_same_run step l (loops_store_next_iteration l hmem) iterations k hk s0 _ rfl
+  resume_same_run step l (loops_store_next_iteration_partial l hmem hn) iterations k hk s0 _ rfl
 
 /-- non-vacuity: a step function that depends on the iteration label and on the state;
 6 iterations interrupted after the 4th -/
 example : fullRun (fun e s => e * s + 1) 6 1 =
     runFrom (fun e s => e * s + 1) 1 4 1 ++
-      resumedRun (fun e s => e * s + 1) 6 (savedCounter ⟨"x", true⟩ 4) (stateAfter (fun e s => e * s + 1) 1 4 1) := by
+      resumedRun (fun e s => e * s + 1) 6 (savedCounter ⟨"x", [.step, .increment, .save], true, true, true⟩ 4) (stateAfter (fun e s => e * s + 1) 1 4 1) := by
   decide
 
 end TTProps.C17
